@@ -1,85 +1,26 @@
-import Ptn.C07.Model
-import Ptn.C05.Props
+import Ptn.C07.Core
 import Ptn.C06.Props
-/-! Property theorems for C07 (two-site TDVP). -/
+import Ptn.Common.AnalysisExp
+/-! Property theorems for C07, part 2 (Mathlib); the combinatorial theorems are in `Core.lean`. -/
 namespace Ptn.C07
-open Ptn.C05 Ptn.C06
 
-/-- The two-site schedule is defined exactly for sweeps over at least two nodes. -/
-theorem twoSite_defined_iff (segs : List Seg) (last : Nat) :
-    (twoSite segs last).isSome ↔ segs ≠ [] := by
-  unfold twoSite
-  cases h : segs.reverse with
-  | nil => simp [List.reverse_eq_nil_iff.mp h]
-  | cons s rest =>
-    have : segs ≠ [] := by
-      intro hs; simp [hs] at h
-    simp [this]
+open Matrix NormedSpace in
+/-- Two-node tree: the step consists of two half two-site updates of the whole state with the full
+    Hamiltonian (`two_node_trace`); exact local exponentials compose to the full propagator:
+    `exp(-i (dt/2) H) exp(-i (dt/2) H) = exp(-i dt H)`. -/
+theorem two_half_steps_are_full_step {n : Type} [Fintype n] [DecidableEq n] (H : Matrix n n ℂ)
+    (s : ℂ) : exp (s • H) * exp (s • H) = exp ((s + s) • H) :=
+  Ptn.Analysis.exp_add_same H s s
 
-private theorem centre_flat_two_bwd (c : Nat) (l : List Seg) (d1 d2 : Int) :
-    centreAfter c (l.flatMap (fun t => [Ev.site t.2 d1, Ev.two t.2 t.1 d2])) =
-      match l.getLast? with | some s => s.1 | none => c := by
-  induction l generalizing c with
-  | nil => simp [centreAfter]
-  | cons s rest ih =>
-    simp only [List.flatMap_cons, List.cons_append, List.nil_append, centreAfter]
-    rw [ih]
-    cases rest with
-    | nil => simp
-    | cons t r =>
-      have hl := List.getLast?_eq_some_getLast (l := t :: r) (by simp)
-      simp [List.getLast?_cons_cons, hl]
-
-private theorem centre_append (c : Nat) (a b : List Ev) :
-    centreAfter c (a ++ b) = centreAfter (centreAfter c a) b := by
-  induction a generalizing c with
-  | nil => rfl
-  | cons e rest ih => cases e <;> simp [centreAfter, ih]
-
-/-- After forward and backward sweep the centre sits on the first node of the update path. -/
-theorem twoSite_final_centre (init : List Seg) (s : Seg) (last c : Nat) :
-    ∃ tr, twoSite (init ++ [s]) last = some tr ∧
-      centreAfter c tr = (match (init ++ [s]).head? with | some t => t.1 | none => c) := by
-  refine ⟨_, twoSite_defined init s last, ?_⟩
-  rw [centre_append, centre_flat_two_bwd]
-  cases init with
-  | nil => simp [centreAfter]
-  | cons t r =>
-    simp only [List.reverse_cons, List.cons_append, List.head?_cons]
-    rw [List.getLast?_append]
-    simp
-
-/-- On a two-node tree a step consists of exactly two two-site half steps on the single bond and
-    no single-site update. -/
-theorem two_node_trace (a b : Nat) :
-    twoSite [(a, b)] b = some [Ev.two a b 1, Ev.two b a 1] := by
-  simp [twoSite]
-
-/-- Hence, if the two-site flow on that bond is a one-parameter group (exact local exponentials:
-    `exp(-iH dt/2) exp(-iH dt/2) = exp(-iH dt)`, and on two nodes the environment is trivial so the
-    effective Hamiltonian *is* `H`), a step equals the flow for the full `dt`. -/
-theorem two_node_exact {α : Type} (φ : Pos → Int → α → α)
-    (hadd : ∀ p s t x, φ p t (φ p s x) = φ p (s + t) x) (a b : Nat) (x : α) :
-    runFlow φ (schedOf [Ev.two a b 1, Ev.two b a 1]) x =
-      φ (if a ≤ b then .bond a b else .bond b a) 2 x := by
-  simp only [runFlow, schedOf, List.map_cons, List.map_nil, List.foldl_cons, List.foldl_nil,
-    Ev.pos, Ev.dur]
-  by_cases h : a ≤ b <;> by_cases h' : b ≤ a
-  · have : a = b := by omega
-    subst this; simp [hadd]
-  · simp [h, h', hadd]
-  · simp [h, h', hadd]
-  · omega
-
-/-- Every truncated split keeps at least one and at most `D` singular values. -/
-theorem kept_bounded (k d : Nat) (hd : 1 ≤ d) :
-    1 ≤ keptCount k (some d) ∧ keptCount k (some d) ≤ d := by
-  simp only [keptCount]; omega
-
-theorem kept_unbounded (k : Nat) : 1 ≤ keptCount k none ∧ k ≤ keptCount k none := by
-  simp only [keptCount]; omega
-
-example : centreAfter 1 ((twoSite [(1, 0), (2, 0), (0, 3)] 3).getD []) = 1 := by decide
-example : keptCount 0 (some 4) = 1 ∧ keptCount 9 (some 4) = 4 := by decide
+open Matrix NormedSpace in
+/-- With truncation disabled every two-site / backward single-site update is an isometric local
+    flow and conserves the norm (and the energy, `Ptn.C06.local_update_conserves_energy`). -/
+theorem two_site_update_conserves_norm {N d : Type} [Fintype N] [Fintype d] [DecidableEq N]
+    [DecidableEq d] (E : Matrix N d ℂ) (H : Matrix N N ℂ) (hE : Eᴴ * E = 1) (hH : Hᴴ = H)
+    (t : ℝ) (φ : d → ℂ) :
+    star (E *ᵥ (exp ((-Complex.I * (t : ℂ)) • (Eᴴ * H * E)) *ᵥ φ)) ⬝ᵥ
+        (E *ᵥ (exp ((-Complex.I * (t : ℂ)) • (Eᴴ * H * E)) *ᵥ φ))
+      = star (E *ᵥ φ) ⬝ᵥ (E *ᵥ φ) :=
+  Ptn.C06.local_update_conserves_norm E H hE hH t φ
 
 end Ptn.C07
